@@ -70,9 +70,11 @@ def _check(ctx, sc, o, declared, label):
                           {"scenario": sc.ident(), "cmd": [C.wild_display()] + o["args"], "name": t})
     # strace path set ⊆ model path set (output, temporary) ∪ declared side files
     d = o["dir"]
+    # side files named on the command line are declared outputs too (the failing `depfile` scenario names one in a missing directory)
+    declared_abs = {os.path.normpath(os.path.join(d, a.split("=", 1)[1])) for a in o["args"] if a.startswith("--dependency-file=")}
     for p in sorted(o["touched"]):
         ap = os.path.normpath(p if os.path.isabs(p) else os.path.join(d, p))
-        if ap.startswith("/dev/") or ap.startswith("/proc/"):
+        if ap.startswith("/dev/") or ap.startswith("/proc/") or ap in declared_abs:
             continue
         rel = os.path.relpath(ap, d)
         top = rel.split(os.sep)[0]
